@@ -221,8 +221,22 @@ def installed(vfs: VFS):
             return real["fsync"](fd)
         return None
 
+    def isfile(p):
+        return vfs.exists(p) if in_vfs(p) else real_isfile(p)
+
+    def getsize(p):
+        if in_vfs(p):
+            if not vfs.exists(p):
+                raise FileNotFoundError(2, "No such file or directory", os.fspath(p))
+            return len(vfs.files[os.fspath(p)])
+        return real_getsize(p)
+
+    real_isfile, real_getsize = os.path.isfile, os.path.getsize
+
     patches = [
         patch("aiofiles.threadpool.sync_open", vfs.sync_open),
+        patch("os.path.isfile", isfile),
+        patch("os.path.getsize", getsize),
         patch("os.replace", replace),
         patch("os.rename", rename),
         patch("os.remove", remove),
@@ -235,6 +249,11 @@ def installed(vfs: VFS):
         for name, fn in (("replace", replace), ("rename", rename), ("remove", remove), ("unlink", remove)):
             if hasattr(aos, name):
                 patches.append(patch(f"aiofiles.os.{name}", aos.wrap(fn)))
+        import aiofiles.ospath as aop
+
+        for name, fn in (("exists", exists), ("isfile", isfile), ("getsize", getsize)):
+            if hasattr(aop, name):
+                patches.append(patch(f"aiofiles.ospath.{name}", aos.wrap(fn)))
     except Exception:  # noqa: BLE001
         pass
     for p in patches:
